@@ -315,6 +315,16 @@ def rule_local(ctx):
     return rr
 
 
+def _cachekey(ctx):
+    """A per-run cache in the completion work-list must be keyed by everything
+    its value depends on, the model state included: a cached context of a
+    workbook that was dropped again turns every later reference to it into
+    #REF! - damage that is not local."""
+    from .common import rule_cachekey
+    return rule_cachekey(ctx, 'C14', 'C14.cachekey',
+                         ['formulas/excel/__init__.py'])
+
+
 def run(ctx):
     t = rule_table(ctx)
     t.prop, t.rule = 'C14', 'C14.table'
@@ -323,4 +333,4 @@ def run(ctx):
     for o in t.obligations:
         o.rule = 'C14.table'
     return [rule_name(ctx), t, rule_lookup(ctx), rule_ref(ctx),
-            rule_plain(ctx), rule_local(ctx)]
+            rule_plain(ctx), rule_local(ctx), _cachekey(ctx)]
